@@ -42,10 +42,12 @@ CFG = {
         [["new_space", "-", "A", []], ["new_cells", "A", "f", S.F(0, 1)], ["set_ref", "A", "t", ["obj", "A.f"], "relative"],
          ["new_cells", "A", "h", S.F(9, 1, "h", "t")], ["new_space", "-", "B", []], ["new_cells", "B", "g", S.F(0, 2)],
          ["set_ref", "B", "t", ["obj", "B.g"], "absolute"], ["new_space", "-", "C", []], ["new_space", "-", "D", ["C", "B"]]],
-    ],
+        # asymmetric inheritance graphs (paths of different lengths to one space, sub spaces below the join)
+    ] + S.MOTIFS_DAG,
+    "top_names": ["A", "B", "C", "D", "E", "G"],
 }
 
-RULE = ("random histories (10-24 ops) over up to 4 top-level spaces and nested children: defining, redefining, "
+RULE = ("random histories (10-24 ops) over up to 6 top-level spaces and nested children: defining, redefining, "
         "deleting cells and references in bases, overriding and un-overriding in subs, adding/removing bases "
         "(diamonds and multiple bases arise), deleting spaces, interleaved with evaluations; non-trivial = some "
         "space had a derived member whose first definer is not its first direct base, or a diamond existed")
